@@ -114,7 +114,7 @@ ASSUMPTIONS = [
     'A-eval: the value of the decision logic is a function of the evaluator and of the ENTRIES of the one context it is evaluated over (logic_value; axiom_logic_value)',
 ]
 NOT_DECIDED = {'C04': ['that build_decision_evaluator collects the reference lists from the requirements as written and builds the logic evaluator from the decision logic (the part of the builder outside the closure)',
-                       'the decision service closures (decision_service.rs) and what build_business_knowledge_model_evaluator hands to build_evaluator (formal parameters, body, result type)',
+                       'the service-as-function body closure of decision_service.rs (scope.peek -> evaluate -> pick the output variable) and what build_business_knowledge_model_evaluator hands to build_evaluator (formal parameters, body, result type)',
                        'boxed expression evaluators of builders/mod.rs (their scope half is under contract in unit purity)',
                        'evaluate_invocable dispatch by name; independence of input entries outside the requirement closure beyond "they do not enter the logic context" (the callees\' own independence is the induction hypothesis)',
                        'what two requirements that produce the same name do to each other (later writer wins as coded; the property does not say)']}
@@ -129,3 +129,62 @@ BOUNDED = {
                       '(integers with distinct prime weights). Not generated: decision tables, relations and function definitions as decision logic, typed conversions, name clashes between requirements, '
                       'an input entry named like a required decision (it overrides that decision: DMN TCK 0085 pins this)'}],
 }
+
+# ---------------------------------------------------------------- decision service closure (decision_service.rs)
+V = 'model-evaluator/src/builders/decision_service.rs'
+EMPTY = 'Map::<Name, Value>::empty()'
+COMPUTED = 'fold_dec(%s, input_decisions@, input_data.0@, %s, input_decisions@.len() as int)' % (ME, EMPTY)
+STAGE_A = 'fold_var(input_decision_results_evaluators@, %s, %s, input_decision_results_evaluators@.len() as int)' % (COMPUTED, EMPTY)
+STAGE_B = 'fold_var(input_decision_results_evaluators@, input_data.0@, %s, input_decision_results_evaluators@.len() as int)' % STAGE_A
+SIN = 'service_input(%s, input_decisions@, input_decision_results_evaluators@, input_data_references@, *input_data)' % ME
+ENC = 'fold_dec(%s, encapsulated_decisions@, %s, %s, encapsulated_decisions@.len() as int)' % (ME, SIN, EMPTY)
+OUTS = 'fold_dec(%s, output_decisions@, %s, %s, output_decisions@.len() as int)' % (ME, SIN, ENC)
+NAMES = 'out_names(%s, output_decisions@, output_decisions@.len() as int)' % ME
+SVC_POST = ('({ let names = %s; let c = %s; let var = *output_variable_name; '
+            'if names.len() == 1 { if c.contains_key(names[0]) { final(output_data).0@ == old(output_data).0@.insert(var, coerced_spec(*output_variable_type, c[names[0]])) } else { final(output_data).0@ == old(output_data).0@ } } '
+            'else { exists |oc: FeelContext| oc.0@ == pick(c, names, names.len() as int) && final(output_data).0@ == old(output_data).0@.insert(var, coerced_spec(*output_variable_type, Value::Context(oc))) } })' % (NAMES, OUTS))
+
+def IDS(v):
+    return ('ids', 'it.seq().len() == %s@.len() && forall |j: int| 0 <= j < it.seq().len() ==> *(#[trigger] it.seq()[j]) == %s@[j]' % (v, v))
+
+SVC_PARTS = [
+    {'kind': 'fn', 'src': X, 'path': 'impl FeelContext::fn get_entry', 'key': 'reqgraph::FeelContext::get_entry', 'props': P, 'auto_props': A, 'loops': 0, 'ret': 'r', 'body_prefix': PRE,
+     'ensures': [('bound_or_not', 'r is Some == self.0@.contains_key(*name)'), ('the_bound_value', 'r is Some ==> *r->Some_0 == self.0@[*name]')]},
+    {'kind': 'closure', 'src': V, 'path': 'fn build_decision_service_evaluator', 'key': 'reqgraph::decision_service_closure', 'props': P, 'auto_props': A, 'loops': 7, 'ret': 'r',
+     'closure_header': r'let decision_service_evaluator = Box::new\(\s*move \|input_data: &FeelContext, model_evaluator: &ModelEvaluator, output_data: &mut FeelContext\| \{',
+     'signature': ('pub fn decision_service_closure(input_data: &FeelContext, model_evaluator: &ModelEvaluator, output_data: &mut FeelContext, input_decisions: &Vec<String>, '
+                   'input_decision_results_evaluators: &Vec<VariableEvaluator>, input_data_references: &Vec<String>, encapsulated_decisions: &Vec<String>, output_decisions: &Vec<String>, '
+                   'output_variable_type: &FeelType, output_variable_name: &Name) -> Name'),
+     'rewrites': [FOR_EACH('input_decisions', 'id'), FOR_EACH('input_data_references', 'input_data_id'), FOR_EACH('encapsulated_decisions', 'id'), FOR_EACH('output_decisions', 'id'), FOR_EACH('output_names', 'output_name'),
+                  ('RX', 'R2v', r'for evaluator in &input_decision_results_evaluators \{', 'for evaluator in input_decision_results_evaluators.iter() {', 2),
+                  ('RX', 'R8e', r'\bevaluator\(&(input_decision_results_value|input_data_values), &item_definition_evaluator\)', r'evaluator.call(&\1, &item_definition_evaluator)', 2),
+                  ('RX', 'R11', r'FeelContext::default\(\)', 'feel_context_default()', None),
+                  ('RX', 'R11', r'Value::Context\(input_data\.clone\(\)\)', 'Value::Context(feel_context_clone(input_data))', 1),
+                  ('RX', 'R14', r'let mut output_names = vec!\[\];', 'let mut output_names: Vec<Name> = vec![];', 1),
+                  ('RX', 'R11', r'value\.to_owned\(\)', 'value.clone()', 2),
+                  ('RX', 'R11', r'output_variable_type\.coerced\(&(single_result|complex_result)\)', r'feel_type_coerced(output_variable_type, &\1)', 2),
+                  ('RX', 'R4c', r'set_entry\(&output_variable_name, ', 'set_entry(output_variable_name, ', 2),
+                  ('RX', 'R4c', r'output_variable_name\.clone\(\)', 'name_clone(output_variable_name)', 1)],
+     'body_prefix': PRE,
+     'requires': [('registries_readable', 'locks_ok(%s)' % ME)],
+     'ensures': [('names_its_output_variable', 'r == *output_variable_name'),
+                 ('the_values_of_its_output_decisions_over_its_own_input', SVC_POST)],
+     'loop_specs': {
+         0: {'iter_name': 'it', 'body_prefix': PRE, 'invariant': [IDS('input_decisions'), ('owner', 'decision_evaluator.owner() == ' + ME),
+             ('input_decisions_so_far', 'input_decisions_results.0@ == fold_dec(%s, input_decisions@, input_data.0@, %s, it.index@ as int)' % (ME, EMPTY))]},
+         1: {'iter_name': 'it', 'body_prefix': PRE, 'invariant': [IDS('input_decision_results_evaluators'), ('a_context_value', 'input_decision_results_value is Context && input_decision_results_value->Context_0.0@ == ' + COMPUTED),
+             ('from_the_computed_input_decisions', 'evaluated_input_data.0@ == fold_var(input_decision_results_evaluators@, %s, %s, it.index@ as int)' % (COMPUTED, EMPTY))]},
+         2: {'iter_name': 'it', 'body_prefix': PRE, 'invariant': [IDS('input_decision_results_evaluators'), ('the_supplied_input', 'input_data_values == Value::Context(*input_data)'),
+             ('from_the_supplied_input', 'evaluated_input_data.0@ == fold_var(input_decision_results_evaluators@, input_data.0@, %s, it.index@ as int)' % STAGE_A)]},
+         3: {'iter_name': 'it', 'body_prefix': PRE, 'invariant': [IDS('input_data_references'), ('owner', 'input_data_evaluator.owner() == ' + ME), ('the_supplied_input', 'input_data_values == Value::Context(*input_data)'),
+             ('input_data_so_far', 'evaluated_input_data.0@ == fold_in_from(%s, input_data_references@, Value::Context(*input_data), %s, it.index@ as int)' % (ME, STAGE_B))]},
+         4: {'iter_name': 'it', 'body_prefix': PRE, 'invariant': [IDS('encapsulated_decisions'), ('owner', 'decision_evaluator.owner() == ' + ME), ('service_input', 'evaluated_input_data.0@ == ' + SIN),
+             ('encapsulated_so_far', 'evaluated_ctx.0@ == fold_dec(%s, encapsulated_decisions@, %s, %s, it.index@ as int)' % (ME, SIN, EMPTY))]},
+         5: {'iter_name': 'it', 'body_prefix': PRE, 'invariant': [IDS('output_decisions'), ('owner', 'decision_evaluator.owner() == ' + ME), ('service_input', 'evaluated_input_data.0@ == ' + SIN),
+             ('outputs_so_far', 'evaluated_ctx.0@ == fold_dec(%s, output_decisions@, %s, %s, it.index@ as int) && output_names@ == out_names(%s, output_decisions@, it.index@ as int)' % (ME, SIN, ENC, ME))]},
+         6: {'iter_name': 'it', 'body_prefix': PRE, 'invariant': [('names', 'it.seq().len() == output_names@.len() && forall |j: int| 0 <= j < it.seq().len() ==> *(#[trigger] it.seq()[j]) == output_names@[j]'),
+             ('picked_so_far', 'output_ctx.0@ == pick(evaluated_ctx.0@, output_names@, it.index@ as int)')]},
+     }},
+]
+_k = [i for i, p_ in enumerate(UNIT['parts']) if p_.get('key') == 'reqgraph::knowledge_model_closure'][0]
+UNIT['parts'][_k:_k] = SVC_PARTS
